@@ -17,7 +17,7 @@ ITEMS = {
     'X': '<xsl:text>a&lt;b&amp;c&gt;d"\'</xsl:text>',
     'C': '<xsl:comment>c m</xsl:comment>',
     'P': '<xsl:processing-instruction name="pi">d d</xsl:processing-instruction>',
-    'U': '<xsl:text>é€</xsl:text>',
+    'U': '<xsl:text>é€\U0001F600</xsl:text>',       # Latin-1, BMP beyond Latin-1, supplementary: raw / character reference per encoding
     'B': '<xsl:text>q]]&gt;</xsl:text>',          # text that ENDS in the CDATA terminator (split needed at the very end of a section)
 }
 INNER = ['', 'T', 'W', 'eTC', 'X', 'Ue', 'B', 'TB', 'Be', 'BT', 'BB']
@@ -258,7 +258,7 @@ def shard_main(shard, nshards, tier):
             except Exception as e:
                 got = 'UNDECODABLE %s' % e
             exp = text_expect if enc != 'ISO-8859-1' else text_expect.replace('€', '?')
-            if got.lstrip('﻿') != exp and not (enc == 'ISO-8859-1' and '€' in text_expect):
+            if got.lstrip('﻿') != exp and not (enc == 'ISO-8859-1' and ('€' in text_expect or '\U0001F600' in text_expect)):
                 viols.append(('text|wrong-text|%s' % (enc or 'default'), {'tree': seq + '/' + inner, 'expected': exp, 'got': got[:300]}))
         if len(samples) < 3 and ti % 211 == shard:
             samples.append('tree %s/%s x %d option vectors' % (seq, inner, len(use)))
